@@ -64,6 +64,36 @@ pub fn verify_layout(layout: &str, p: &StarkProof, sec: Felt) -> Out {
     }
 }
 
+/// the challenges the verifier derives (for comparison with the `V->P` lines Stone recorded)
+pub fn challenges_layout(layout: &str, p: &StarkProof) -> Out {
+    macro_rules! v { ($m:ident) => { {
+        type L = swiftness_air::layout::$m::Layout;
+        let d = swiftness_air::domains::StarkDomains::new(p.config.log_trace_domain_size, p.config.log_n_cosets);
+        let digest = p.public_input.get_hash(p.config.n_verifier_friendly_commitment_layers);
+        let mut t = swiftness_transcript::transcript::Transcript::new(digest);
+        match swiftness_stark::commit::stark_commit::<L>(&mut t, &p.public_input, &p.unsent_commitment, &p.config, &d) {
+            Err(e) => Out::Err(format!("{:?}", e).chars().take(200).collect()),
+            Ok(c) => {
+                let q = swiftness_stark::queries::generate_queries(&mut t, p.config.n_queries, d.eval_domain_size);
+                let ie = serde_json::to_value(&c.traces.interaction_elements).unwrap();
+                let mut iev: Vec<String> = ie.as_object().unwrap().values().map(|x| x.as_str().unwrap().trim_start_matches("0x").trim_start_matches('0').to_string()).collect();
+                iev.sort();
+                Out::Ok(format!("{} {} {} {} {} {}", hx(&digest), iev.join(","), hx(&c.interaction_after_composition),
+                    hx(c.interaction_after_oods.get(1).unwrap_or(&Felt::ZERO)), hxs(&c.fri.eval_points), hxs(&q)))
+            }
+        } } } }
+    match layout {
+        "recursive" => v!(recursive),
+        #[cfg(feature = "all_layouts")] "dex" => v!(dex),
+        #[cfg(feature = "all_layouts")] "recursive_with_poseidon" => v!(recursive_with_poseidon),
+        #[cfg(feature = "all_layouts")] "small" => v!(small),
+        #[cfg(feature = "all_layouts")] "starknet" => v!(starknet),
+        #[cfg(feature = "all_layouts")] "starknet_with_keccak" => v!(starknet_with_keccak),
+        #[cfg(feature = "all_layouts")] "dynamic" => v!(dynamic),
+        _ => panic!("HX-BAD-INPUT layout {} not in this build", layout),
+    }
+}
+
 pub fn fixture_proof() -> StarkProof {
     StarkProof { config: swiftness_stark::fixtures::config::get(), public_input: swiftness_air::fixtures::public_input::get(),
         unsent_commitment: swiftness_stark::fixtures::unsent_commitment::get(), witness: swiftness_stark::fixtures::witness::get() }
@@ -73,6 +103,8 @@ pub fn run(op: &str, a: &[&str]) -> Option<Out> {
     Some(match op {
         // verify <layout> <sec> <proof tokens>
         "verify" => verify_layout(a[0], &parse_proof(&a[2..]), felt(a[1])),
+        // challenges <layout> <proof tokens> -> seed, interaction elements (sorted), oods point, oods alpha, fri eval points, queries
+        "challenges" => challenges_layout(a[0], &parse_proof(&a[1..])),
         // fixture_proof -> proof tokens
         "fixture_proof" => Out::Ok(fmt_proof(&fixture_proof())),
         // security_bits <proof tokens> -> config.security_bits()
